@@ -88,9 +88,15 @@ Definition ps_full : projspec := mkps ev_any true true true.
 
 (* result of checking one scenario: strict equality, equality under the property's projection,
    and the property's monitor evaluated on the implementation's observation *)
-Record verdict := mkv { v_strict : bool; v_proj : bool; v_mon : bool }.
+Record verdict := mkv { v_strict : bool; v_proj : bool; v_mon : bool; v_monk : bool }.
+(* v_monk: the monitor with the classes listed in known_findings.txt left open (= v_mon when there are none) *)
 
 Definition check_with (p : projspec) (mon : scen -> list callobs -> bool)
            (sc : scen) (impl : list callobs) : verdict :=
   let m := model_obs sc in
-  mkv (obs_eqb m impl) (proj_eqb p m impl) (mon sc impl).
+  mkv (obs_eqb m impl) (proj_eqb p m impl) (mon sc impl) (mon sc impl).
+
+Definition check_with2 (p : projspec) (mon monk : scen -> list callobs -> bool)
+           (sc : scen) (impl : list callobs) : verdict :=
+  let m := model_obs sc in
+  mkv (obs_eqb m impl) (proj_eqb p m impl) (mon sc impl) (monk sc impl).
